@@ -150,6 +150,16 @@ def run(ctx):
     check_unwraps(ctx, ctx.program("MAX"))
     from .c01_index import check_indexing
     check_indexing(ctx, ctx.program("MAX"))
+    # P18 / P20: explicit panics of the front end; std APIs that panic on a zero size
+    from .c01_panics import check_front_end_panics, check_zero_sizes
+    n18 = check_front_end_panics(ctx, ctx.program("MAX"))
+    ctx.floor("C01.P18 explicit panic sites in lexer / parser / syntax", n18, 3)
+    n20 = check_zero_sizes(ctx, ctx.program("MAX"))
+    ctx.floor("C01.P20 calls of windows / chunks / step_by", n20, 4)
+    # P19: the length an engine iterator claims is backed by memory or clamped
+    from .c01_sizehint import check_size_hints
+    n19 = check_size_hints(ctx, ctx.program("MAX"))
+    ctx.floor("C01.P19 size_hint implementations of the engine", n19, 3)
     # P17: an instruction operand used as an index fits the table it indexes (generator and interpreter agree)
     from .c01_operands import check_operand_indices
     n17 = check_operand_indices(ctx, ctx.program("MAX"))
